@@ -232,6 +232,8 @@ def set_stiffness(spec, Z):
     kap = 2 * math.pi / L * orc.rfft_wavenumbers(D, N)
     if spec["cls"] == "Wave":
         lmax = abs(model.full_kw(spec)["speed_of_sound"]) * float(np.max(np.sqrt((kap**2).sum(0))))
+        if lmax == 0.0:  # speed_of_sound = 0: lambda = 0 for every mode, any dt
+            return dict(spec)
         return dict(spec, dt=float("%.6g" % (Z / lmax)))
     lam = model.symbol(dict(spec, dt=1.0), kap)
     lmax = float(np.max(np.abs(lam))) or 1.0
@@ -336,6 +338,10 @@ def b_check(case):
                 break
         res.tag("state_scaled_for_conditioning")
     r0 = nl_ratio(u)
+    # modes with Re(lambda dt) > 0 (outside the property's finiteness clause, growth capped at e^5) amplify the stage
+    # values before the nonlinear term is applied to them again: the finiteness domain is decided on the amplified state
+    gmax = float(np.max(z.real))
+    r_fin = max(r0, nl_ratio(u * math.exp(min(max(gmax, 0.0), 50.0)))) if gmax > 0 else r0
     cond = (1.0 + 3.0 * min(r0, 1e30)) ** max(p, 0)
     outs = {}
     zero_outs = {}
@@ -354,7 +360,7 @@ def b_check(case):
             if ok:
                 res.true("output_dtype_is_session_default:" + sess, out.dtype == fdt, key=key + ":" + sess + ":dtype", msg=str(out.dtype))
                 out = np.asarray(out)
-                if r0 <= 0.5:
+                if r_fin <= 0.5:
                     res.true("output_finite:" + sess, bool(np.all(np.isfinite(out))), key=key + ":" + sess + ":finite")
                 else:
                     # dt*|N(u)| > 10 |u|: the polynomial nonlinearity itself can overflow single precision
